@@ -85,3 +85,69 @@ Theorem c02_every_accepted_file : forall bs z h cs, load_bytes bs = OK (Some z) 
 Proof. exact accepted_make_refines_lemma. Qed.
 Print Assumptions c02_every_accepted_file.
 
+
+From CCTZ Require Import ZoneSpec WholeDomain C01Whole.
+From CCTZ Require C02Whole.
+(* END TO END against the TZif specification (C02Whole.v).  spec_displays a t cs: the file's data, read by the
+   independent reader ZoneSpec (default type / latest transition / POSIX footer rule evaluated on the calendar,
+   arbitrarily far into the future), designates civil second cs for instant t - t ranges over ALL of Z, so that
+   "clamped to min()/max()" is meaningful.  For every byte string that parses into a well-formed file of the C01
+   domain whose footer offsets are below 24 h and whose (recorded + generated) offset changes are farther apart
+   than their sizes - every hypothesis a boolean on the parsed file - the loader accepts it and MakeTime answers,
+   for EVERY valid civil second with an int64 year and every hint: *)
+Definition c02_outcome (a : ast) (cs : fields) (cl : clookup) : Prop :=
+  match cl_kind cl with
+  | UNIQUE =>
+      (* exactly one instant displays cs; all three fields are that instant *)
+      exists t, C02Whole.spec_displays a t cs /\ (forall t', C02Whole.spec_displays a t' cs -> t' = t) /\
+        cl_pre cl = clamp64z t /\ cl_trans cl = clamp64z t /\ cl_post cl = clamp64z t
+  | SKIPPED =>
+      (* no instant displays cs; T is an offset change (o1 before, o2 from T on) whose gap contains cs:
+         T + o1 <= cs < T + o2, i.e. pre >= trans > post; pre / post = cs read with o1 / o2 *)
+      (forall t, ~ C02Whole.spec_displays a t cs) /\
+      exists T o1 o2,
+        off_at (szone_of a) (T - 1) = Some o1 /\ off_at (szone_of a) T = Some o2 /\ o1 <> o2 /\
+        sec_of cs - o1 >= T /\ T > sec_of cs - o2 /\
+        cl_pre cl = clamp64z (sec_of cs - o1) /\ cl_trans cl = clamp64z T /\
+        cl_post cl = clamp64z (sec_of cs - o2)
+  | REPEATED =>
+      (* exactly two instants display cs: cs read with o1 (before the change T) and with o2 (after it) *)
+      exists T o1 o2,
+        off_at (szone_of a) (T - 1) = Some o1 /\ off_at (szone_of a) T = Some o2 /\ o1 <> o2 /\
+        C02Whole.spec_displays a (sec_of cs - o1) cs /\ C02Whole.spec_displays a (sec_of cs - o2) cs /\
+        sec_of cs - o1 < T /\ T <= sec_of cs - o2 /\
+        (forall t, C02Whole.spec_displays a t cs -> t = sec_of cs - o1 \/ t = sec_of cs - o2) /\
+        cl_pre cl = clamp64z (sec_of cs - o1) /\ cl_trans cl = clamp64z T /\
+        cl_post cl = clamp64z (sec_of cs - o2)
+  end.
+
+Theorem c02_whole : forall bs h a,
+  parse_ast bs = Some (h, a) -> wf_ast h a = true -> c01_domain h a = true ->
+  footer_below_day a = true -> table_gaps_ok a = true ->
+  exists z, load_bytes bs = OK (Some z) /\
+    forall hint cs, valid_fields cs = true -> int64 (fy cs) ->
+      exists cl hint', make_time z hint cs = OK (cl, hint') /\ c02_outcome a cs cl.
+Proof. exact C02Whole.c02_whole_ast. Qed.
+Print Assumptions c02_whole.
+(* the hypotheses are satisfiable: the New York file of C01Whole.v, with UNIQUE / SKIPPED / REPEATED civil seconds
+   inside the table, beyond last_year_ and clamped at max() evaluated in C02Whole.c02_whole_nonvacuous *)
+
+From CCTZ Require Import SourceZone SourceZoneProofs.
+(* SOURCE-DERIVED zone queries (SourceZone.v, regenerated by gen/ast_translate_zone.py from clang's AST of the CURRENT
+   src/time_zone_info.cc on every run: control flow, comparisons, the relaxed-atomic hint logic, std::upper_bound with its
+   partition precondition as Err Precond, pointer-as-index arithmetic with Err OOB, the 400-year shift in checked 64-bit
+   arithmetic, assert as Err Precond).  An edit of the C++ changes SourceZone.v and breaks these obligations; the
+   hypotheses are only the C++ types (size_t: 0 <= x < 2^64).  fuel counts the recursive self-calls. *)
+Theorem src_make_time_tie : forall z hint cs r,
+  size_t (vec_size (z_trans z)) -> size_t hint ->
+  valid_fields cs = true -> int64 (z_last_year z - 400) ->
+  make_time z hint cs = OK r ->
+  forall fuel, (3 <= fuel)%nat -> sz_MakeTime fuel z hint cs = OK r.
+Proof. exact sz_MakeTime_tie. Qed.
+Print Assumptions src_make_time_tie.
+Theorem src_make_skipped_tie : forall tr cs r, make_skipped tr cs = OK r -> sz_MakeSkipped tr cs = OK r.
+Proof. exact sz_MakeSkipped_tie. Qed.
+Print Assumptions src_make_skipped_tie.
+Theorem src_make_repeated_tie : forall tr cs r, make_repeated tr cs = OK r -> sz_MakeRepeated tr cs = OK r.
+Proof. exact sz_MakeRepeated_tie. Qed.
+Print Assumptions src_make_repeated_tie.
